@@ -14,6 +14,12 @@ git apply -R $D/patch.diff
 echo "--- demo without change:"; PYTHONPATH=$WT MPLBACKEND=Agg timeout 300 /venv/bin/python _seed/demo.py > /tmp/demo_wo.out 2>&1; echo "exit=$? $(tail -1 /tmp/demo_wo.out | cut -c1-150)"
 git apply $D/patch.diff
 cd /verif
+if [ -n "$SEED_NOAPPLY" ]; then
+  # triage without touching /repo (something else is using it): the check reads the worktree's source instead
+  echo "--- our check ($PROP) against the worktree (VERIF_REPO):"
+  VERIF_REPO=$WT ./check $PROP > /tmp/check_seed_$PROP.out 2>&1; echo "exit=$?"; grep -E "^(VIOLATION|UNDECIDED|CHECKER|OK|KNOWN)" /tmp/check_seed_$PROP.out | sed -E 's/replay=[^ ]* //' | cut -c1-200 | head -8
+  exit 0
+fi
 git -C /repo apply $D/patch.diff || { echo "patch does not apply to /repo"; exit 1; }
 echo "--- our check ($PROP) with the change applied to /repo:"
 ./check $PROP > /tmp/check_seed.out 2>&1; echo "exit=$?"; grep -E "^(VIOLATION|UNDECIDED|CHECKER|OK|KNOWN)" /tmp/check_seed.out | cut -c1-230 | head -8
